@@ -59,41 +59,24 @@ Match(r, m, p) == /\ RowMod[r] = m
 MatchP(r, m, p) == RowMod[r] = m /\ (p = NoPrefix \/ PrefixMatch(p, RowQn[r]))
 
 \* ---- actions ------------------------------------------------------------------------------
+\* The transactional core (guards and effects on disk / txn / alive / lock / journal) lives in MTStoreTxn, where
+\* Apalache proves its invariants inductively; here every step also appends to the history and resets the observation.
+BatchSizeOf == [b \in DOMAIN Batches |-> Cardinality(Batches[b].rows)]
+T == INSTANCE MTStoreTxn WITH BatchIds <- DOMAIN Batches, BatchSize <- BatchSizeOf
+
+H(op, c, b) == hist' = Append(hist, [op |-> op, c |-> c, b |-> b, m |-> None, p |-> NoPrefix, n |-> 0])
+
 \* add(batch): serialise (drop the unserialisable), BEGIN, first INSERT takes the write lock
-Begin(c, b) == /\ alive[c] /\ txn[c] = NoTxn /\ lock = None /\ b \notin disk
-               /\ \A c2 \in Conn : txn[c2] = NoTxn \/ txn[c2].b # b
-               /\ txn' = [txn EXCEPT ![c] = [b |-> b, cur |-> 0]]
-               /\ lock' = c
-               /\ hist' = Append(hist, [op |-> "Begin", c |-> c, b |-> b, m |-> None, p |-> NoPrefix, n |-> 0])
-               /\ out' = NoOut /\ UNCHANGED <<disk, alive, journal>>
-Busy(c, b) ==  /\ alive[c] /\ txn[c] = NoTxn /\ lock # None /\ lock # c
+Begin(c, b) == T!TBegin(c, b) /\ H("Begin", c, b) /\ out' = NoOut
+Busy(c, b) ==  /\ T!TBusy(c)
                /\ out' = [NoOut EXCEPT !.c = c, !.op = "busy"]
-               /\ hist' = Append(hist, [op |-> "Busy", c |-> c, b |-> b, m |-> None, p |-> NoPrefix, n |-> 0])
-               /\ UNCHANGED <<disk, txn, alive, lock, journal>>
-InsertRow(c) == /\ alive[c] /\ txn[c] # NoTxn /\ txn[c].cur < Cardinality(Batches[txn[c].b].rows)
-                /\ txn' = [txn EXCEPT ![c].cur = @ + 1]
-                /\ hist' = Append(hist, [op |-> "Insert", c |-> c, b |-> txn[c].b, m |-> None, p |-> NoPrefix, n |-> 0])
-                /\ out' = NoOut /\ UNCHANGED <<disk, alive, lock, journal>>
+               /\ H("Busy", c, b)
+InsertRow(c) == T!TInsertRow(c) /\ H("Insert", c, txn[c].b) /\ out' = NoOut
 \* the writer runs to completion: remaining inserts and COMMIT (the coordinator of the replay lets it go)
-Commit(c) ==   /\ alive[c] /\ txn[c] # NoTxn
-               /\ disk' = disk \cup {txn[c].b}
-               /\ txn' = [txn EXCEPT ![c] = NoTxn] /\ lock' = None
-               /\ hist' = Append(hist, [op |-> "Commit", c |-> c, b |-> txn[c].b, m |-> None, p |-> NoPrefix, n |-> 0])
-               /\ out' = NoOut /\ UNCHANGED <<alive, journal>>
-Abort(c) ==    /\ alive[c] /\ txn[c] # NoTxn
-               /\ txn' = [txn EXCEPT ![c] = NoTxn] /\ lock' = None
-               /\ hist' = Append(hist, [op |-> "Abort", c |-> c, b |-> txn[c].b, m |-> None, p |-> NoPrefix, n |-> 0])
-               /\ out' = NoOut /\ UNCHANGED <<disk, alive, journal>>
-Crash(c) ==    /\ alive[c] /\ txn[c] # NoTxn
-               /\ alive' = [alive EXCEPT ![c] = FALSE]
-               /\ journal' = [journal EXCEPT ![c] = txn[c].b]
-               /\ txn' = [txn EXCEPT ![c] = NoTxn] /\ lock' = None
-               /\ hist' = Append(hist, [op |-> "Crash", c |-> c, b |-> txn[c].b, m |-> None, p |-> NoPrefix, n |-> 0])
-               /\ out' = NoOut /\ UNCHANGED disk
-Reopen(c) ==   /\ ~alive[c]
-               /\ alive' = [alive EXCEPT ![c] = TRUE] /\ journal' = [journal EXCEPT ![c] = None]
-               /\ hist' = Append(hist, [op |-> "Reopen", c |-> c, b |-> None, m |-> None, p |-> NoPrefix, n |-> 0])
-               /\ out' = NoOut /\ UNCHANGED <<disk, txn, lock>>
+Commit(c) ==   T!TCommit(c) /\ H("Commit", c, txn[c].b) /\ out' = NoOut
+Abort(c) ==    T!TAbort(c) /\ H("Abort", c, txn[c].b) /\ out' = NoOut
+Crash(c) ==    T!TCrash(c) /\ H("Crash", c, txn[c].b) /\ out' = NoOut
+Reopen(c) ==   T!TReopen(c) /\ H("Reopen", c, None) /\ out' = NoOut
 
 FilterResults(m, p, n) ==
   LET M == {r \in DiskRows : Match(r, m, p)}
@@ -117,7 +100,9 @@ Spec == Init /\ [][Next]_vars
 (***************************************************************************)
 \* a batch is visible entirely or not at all: disk only ever holds whole batches (by construction) and
 \* what a reader sees is exactly the rows of the committed batches
-Atomic == \A c \in Conn : txn[c] # NoTxn => txn[c].b \notin disk
+Atomic == T!TAtomic
+\* the invariants Apalache proves inductively for the core, checked here as well (bounded)
+CoreInv == T!TIndInv
 \* committed batches are never lost, also across crash and reopen
 Durable == [][disk \subseteq disk']_vars
 \* a query returns min(n, d) distinct rows, each with module m and a qualname that starts with p
